@@ -408,6 +408,11 @@ class SqlImpl(TableImpl):
                 col._uuid for col in query.partition_by if col._uuid not in needed_cols
             ]
 
+            # Visible columns come first, so that they keep their names and a clash is
+            # resolved on the hidden column (later verbs identify visible columns by
+            # their label).
+            subquery_cols.sort(key=lambda uid: uid not in original_select)
+
             # resolve potential column name collisions in the subquery
             for uid in subquery_cols:
                 if uid in sqa_expr:
